@@ -134,6 +134,7 @@ type T struct{}
 type R struct{}
 
 //«annTM»
+//«annTM2»
 func (t *T) M() {}
 
 //«annRM»
@@ -227,10 +228,11 @@ type E struct {
 func ZZC04Names() {
 	annT := nd.EnumPad("annT", " @packageonly", " @packageonly d", " @packageonly zzmod/x/d", " @packageonly u", " plain")
 	annR := nd.EnumPad("annR", " @packageonly u", " @packageonly d, u", " plain")
-	annTM := nd.EnumPad("annTM", " @packageonly", " @packageonly u", " @packageonly u, d", " plain")
+	annTM := nd.EnumPad("annTM", " @packageonly", " @packageonly u", " @packageonly u, d", " @packageonly u, u, d", " plain")
+	annTM2 := nd.EnumPad("annTM2", " @packageonly d", " plain")
 	annRM := nd.EnumPad("annRM", " @packageonly", " @packageonly u", " @packageonly zzmod/x/d", " plain")
 	annFM := nd.EnumPad("annFM", " @packageonly", " @packageonly u", " @packageonly d", " plain")
-	holes := []nd.Hole{{"annT", annT}, {"annR", annR}, {"annTM", annTM}, {"annRM", annRM}, {"annFM", annFM}}
+	holes := []nd.Hole{{"annT", annT}, {"annR", annR}, {"annTM", annTM}, {"annTM2", annTM2}, {"annRM", annRM}, {"annFM", annFM}}
 	files := []nd.File{{Pkg: "zzmod/d", Name: "d.go", Src: c04SrcD2}, {Pkg: "zzmod/u", Name: "u1.go", Src: c04SrcU1}, {Pkg: "zzmod/u", Name: "u3.go", Src: c04SrcU3}, {Pkg: "zzmod/x/d", Name: "w.go", Src: c04SrcW}, {Pkg: "zzmod/dot", Name: "dot.go", Src: c04SrcDot},
 		{Pkg: "zzmod/x/d", Name: "emb.go", Src: c04SrcWEmb}, {Pkg: "zzmod/dot", Name: "dotemb.go", Src: c04SrcDotEmb}}
 	prog := nd.LoadProgram(files, holes)
@@ -242,10 +244,11 @@ func ZZC04Names() {
 	CheckExact(rd.Diags, []Expect{}, "C04 declaring package")
 
 	on := func(a string) bool { return nd.HasPrefix(a, " @packageonly") }
+	onTM := nd.Or(on(annTM), on(annTM2))
 	// no spelling allows package dot (path zzmod/dot)
 	CheckExact(rdot.Diags, []Expect{
 		{"/zz/zzmod/dot/dot.go", nd.LineOf(c04SrcDot, "DOT-PT"), "PKGO01", on(annT)},
-		{"/zz/zzmod/dot/dot.go", nd.LineOf(c04SrcDot, "DOT-TM"), "PKGO03", on(annTM)},
+		{"/zz/zzmod/dot/dot.go", nd.LineOf(c04SrcDot, "DOT-TM"), "PKGO03", onTM},
 		{"/zz/zzmod/dot/dot.go", nd.LineOf(c04SrcDot, "DOT-FM"), "PKGO02", on(annFM)},
 		{"/zz/zzmod/dot/dotemb.go", nd.LineOf(c04SrcDotEmb, "DOT-EMB"), "PKGO01", on(annR)},
 	}, "C04 dot-importing user package")
@@ -254,7 +257,8 @@ func ZZC04Names() {
 	uR := nd.Or(nd.HasPrefix(annR, " @packageonly u"), nd.HasPrefix(annR, " @packageonly d, u"))
 	wR := nd.HasPrefix(annR, " @packageonly d, u")
 	uTM := nd.HasPrefix(annTM, " @packageonly u")
-	wTM := nd.HasPrefix(annTM, " @packageonly u, d")
+	// the union of BOTH annotation lines; an entry repeated within a line changes nothing
+	wTM := nd.Or(nd.HasPrefix(annTM, " @packageonly u, d"), nd.HasPrefix(annTM, " @packageonly u, u, d"), nd.HasPrefix(annTM2, " @packageonly d"))
 	uRM := nd.HasPrefix(annRM, " @packageonly u")
 	wRM := nd.HasPrefix(annRM, " @packageonly zzmod/x/d")
 	wFM := nd.HasPrefix(annFM, " @packageonly d")
@@ -262,17 +266,17 @@ func ZZC04Names() {
 	CheckExact(ru.Diags, []Expect{
 		{f1, nd.LineOf(c04SrcU1, "U1-TV"), "PKGO01", nd.And(on(annT), nd.Not(uT))},
 		{f1, nd.LineOf(c04SrcU1, "U1-RV"), "PKGO01", nd.And(on(annR), nd.Not(uR))},
-		{f3, nd.LineOf(c04SrcU3, "U3-TM"), "PKGO03", nd.And(on(annTM), nd.Not(uTM))},
+		{f3, nd.LineOf(c04SrcU3, "U3-TM"), "PKGO03", nd.And(onTM, nd.Not(uTM))},
 		{f3, nd.LineOf(c04SrcU3, "U3-RM"), "PKGO03", nd.And(on(annRM), nd.Not(uRM))},
-		{f3, nd.LineOf(c04SrcU3, "U3-TMV"), "PKGO03", nd.And(on(annTM), nd.Not(uTM))},
+		{f3, nd.LineOf(c04SrcU3, "U3-TMV"), "PKGO03", nd.And(onTM, nd.Not(uTM))},
 	}, "C04 same-named methods, file without imports")
 	CheckExact(rw.Diags, []Expect{
 		{fw, nd.LineOf(c04SrcW, "W-PT"), "PKGO01", nd.And(on(annT), nd.Not(wT))},
 		{fw, nd.LineOf(c04SrcW, "W-PR"), "PKGO01", nd.And(on(annR), nd.Not(wR))},
-		{fw, nd.LineOf(c04SrcW, "W-TM"), "PKGO03", nd.And(on(annTM), nd.Not(wTM))},
+		{fw, nd.LineOf(c04SrcW, "W-TM"), "PKGO03", nd.And(onTM, nd.Not(wTM))},
 		{fw, nd.LineOf(c04SrcW, "W-RM"), "PKGO03", nd.And(on(annRM), nd.Not(wRM))},
 		{fw, nd.LineOf(c04SrcW, "W-FM"), "PKGO02", nd.And(on(annFM), nd.Not(wFM))},
-		{fw, nd.LineOf(c04SrcW, "W-MEXPR"), "PKGO03", nd.And(on(annTM), nd.Not(wTM))},
+		{fw, nd.LineOf(c04SrcW, "W-MEXPR"), "PKGO03", nd.And(onTM, nd.Not(wTM))},
 		// an embedded field is a reference to the type like a named field
 		{"/zz/zzmod/x/d/emb.go", nd.LineOf(c04SrcWEmb, "W-EMB"), "PKGO01", nd.And(on(annT), nd.Not(wT))},
 		{"/zz/zzmod/x/d/emb.go", nd.LineOf(c04SrcWEmb, "W-EMBP"), "PKGO01", nd.And(on(annR), nd.Not(wR))},
